@@ -389,10 +389,15 @@ def mon_c20(sess, sc):
     # ground truth: a client that hung up / reset / quit and whose script ended (every request answered or abandoned) must have
     # been destroyed by now, whatever the daemon's own bookkeeping says
     gone = set()
+    # events the virtual OS could not deliver (e.g. `EOF c2` in the very round of the connect, before accept() created c2) did not happen
+    ignored = set()
+    for l in sess.sim.trace:
+        m = re.match(r"IGNORED (EOF|RST|FULLCLOSE) c(\d+)", l)
+        if m: ignored.add(int(m.group(2)))
     for rnd_evs in sess.sim.events:                     # what the environment really sent (a script cut short by SIGTERM sends less)
         for e in rnd_evs:
             m = re.match(r"(EOF|RST|FULLCLOSE) c(\d+)", e)
-            if m: gone.add(int(m.group(2)))
+            if m and int(m.group(2)) not in ignored: gone.add(int(m.group(2)))
             m = re.match(r"IN c(\d+) ([0-9a-f]+)", e)
             if m:
                 if bytes.fromhex(m.group(2)).strip().lower().startswith(b"quit"): gone.add(int(m.group(1)))
